@@ -534,7 +534,7 @@ func (w *World) SortOf(t types.Type) Sort {
 		if u.Obj().Pkg() == nil && u.Obj().Name() == "error" {
 			return SBool
 		}
-		if u.Obj().Pkg() != nil && ((u.Obj().Pkg().Path() == "bytes" && u.Obj().Name() == "Buffer") || (u.Obj().Pkg().Path() == "strings" && u.Obj().Name() == "Builder")) {
+		if u.Obj().Pkg() != nil && ((u.Obj().Pkg().Path() == "bytes" && (u.Obj().Name() == "Buffer" || u.Obj().Name() == "Reader")) || (u.Obj().Pkg().Path() == "strings" && u.Obj().Name() == "Builder")) {
 			return w.SeqSort(SInt)
 		}
 		if st, ok := u.Underlying().(*types.Struct); ok {
